@@ -8,7 +8,7 @@ from vf.core import Shard, rng_for
 PROPERTY = 'C17'
 RULE = ('random CMAP files: 0-8 molecules, ids up to 10^7, 0-60 labels per molecule (unlabelled molecules included), '
         'one-decimal coordinates up to 10^7, rows shuffled on 60 % of files, extra and permuted columns (header-driven), '
-        'id filters with unknown ids; read with the real CmapReader.readQueries/readReferences and compared with the '
+        'id filters with unknown ids; read with the real CmapReader.readQueries/readReferences (one reader object reads all files of a shard, as Program reads reference and query with one reader) and compared with the '
         'generator\'s dictionary model (one map per id with >= 1 label, ascending labels, length = int(end marker), '
         'molecules in ascending id, filter = exactly the listed ids); OpticalMap.trim(): first label 0, same count, '
         'same inter-label distances, length last-first+1, idempotent. Plus, end to end, the maps Program actually used '
@@ -45,6 +45,9 @@ def make_file(rng):
             'which': rng.choice(['readQueries', 'readReferences'])}
 
 
+READERS = {}
+
+
 def judge_file(c, sh):
     from src.parsers.cmap_reader import CmapReader
     sh.evaluations += 1
@@ -55,7 +58,9 @@ def judge_file(c, sh):
         sh.count('filtered-reads')
     case = {k: c[k] for k in ('kind', 'text', 'filter', 'which', 'mols', 'shuffled')}
     try:
-        got = getattr(CmapReader(), c['which'])(io.StringIO(c['text']), c['filter'])
+        # one reader object per shard reads all files (Program reads the reference and the query file with one CmapReader)
+        reader = READERS.setdefault('r', CmapReader()) if c.get('shared_reader', True) else CmapReader()
+        got = getattr(reader, c['which'])(io.StringIO(c['text']), c['filter'])
     except Exception as ex:
         info = pipeline.error_info(ex)
         sh.violation('reader-raises:%s@%s' % (info['type'], info['frame']), '%s raised %s on a file with molecules %s filter %s' % (
@@ -118,6 +123,10 @@ def judge_e2e(case, wd, sh):
         return init
     obs = e2e.observe(case, wd, trace=False, cands=False, extra_ctx=[hooks.wrapped(prog.Program, '__init__', make)])
     if not e2e.note_run(case, obs, sh) or 'p' not in seen:
+        if obs.run.error and ('parsers/' in obs.run.error['frame'] or 'p' not in seen):
+            sh.violation('program-cannot-read-valid-cmap:%s@%s' % (obs.run.error['type'], obs.run.error['frame']),
+                         'Program aborted while reading well-formed CMAP files (reference and query with different column layouts / row orders): %s: %s' % (
+                             obs.run.error['type'], obs.run.error['msg']), dict(pipeline.slim_case(case), kind='e2e'))
         return
     p = seen['p']
     slim = dict(pipeline.slim_case(case), kind='e2e')
